@@ -17,6 +17,7 @@ def run(ctx):
     ctx.assume("correctness for every reachable database state x request is not decided; tiling of the chunks is C08")
     empty(ctx)
     emptyctor(ctx)
+    unprocessed(ctx)
     filter_(ctx)
     snapshot(ctx)
     range_(ctx)
@@ -103,6 +104,30 @@ def emptyctor(ctx):
     # no other Empty in the peer server path
     others = [(x.id) for x in F.bodies.values() if x.id.startswith(PEER) and x.id != HN and cm.aggregates(x, "klukai_types::broadcast::Changeset", "Empty")]
     R.require(not others, "no-other-empty", "", "no other Changeset::Empty construction in api::peer", fail_msg="Changeset::Empty is also constructed in %s" % others)
+
+
+def unprocessed(ctx):
+    """versions for which rows were found must not take part in the empties pass: they are removed from `unprocessed`"""
+    F = ctx.F
+    R = ctx.rule("C05.unprocessed", "K2+K4", "a requested version that has live rows is struck from the `unprocessed` set before the empties / partial pass, which iterates only that set")
+    b = F.get(HN)
+    if not R.anchor(b, "handle_need", "fn handle_need"):
+        return
+    rems = [c for c in b.calls if re.search(r"RangeInclusiveSet::<T.*>::remove$", c.f) and "CrsqlDbVersion" in c.self_ty]
+    sends = [c for c in b.calls if (c.t.get("r") or c.f) == PEER + "send_change_chunks"]
+    if not (R.anchor(rems, "unprocessed.remove", "unprocessed.remove(version..=version)") and R.anchor(sends, "send_change_chunks", "send_change_chunks calls")):
+        return
+    r = rems[0]
+    # on the same loop as the first (full version) send and before it
+    first = [s for s in sends if b.in_loop_with(r.bb, s.bb)]
+    R.require(bool(first) and b.dominates(r.bb, first[0].bb), "struck-before-send", r.where(), "the version is struck from `unprocessed` in the rows loop, before its changes are sent",
+              fail_msg="versions with live rows are no longer removed from `unprocessed`: they would also go through the empties pass and be declared empty")
+    f = cm.deep_names(b, op_place(r.args[1]), (r.bb, "T"), nargs=2)
+    R.require("get" in f[1] or "new" in f[1], "struck-version-from-row", r.where(), "the struck version is the row's db_version (%s)" % sorted(f[1])[:4])
+    # the empties query sites are reachable only from iterating `unprocessed` (Full) or from the None arm (Partial)
+    qs = _flag_queries(F, b)
+    ins = [c for c in b.calls if re.search(r"RangeInclusiveSet::<T.*>::insert$", c.f) and "CrsqlDbVersion" in c.self_ty]
+    R.require(len(ins) >= 3, "unprocessed-seeded", b.where(), "`unprocessed` starts as the requested range (insert) and empties are inserted separately (%d inserts)" % len(ins))
 
 
 def _derives_from_field_iter(b, place, at):
